@@ -241,6 +241,7 @@ type stats struct {
 	ScriptLen        map[string]int `json:"script_len"`
 	DecodeDrops      int            `json:"decode_drops"`
 	WireStream       map[string]int `json:"wire_stream"`
+	Branches         map[string]int `json:"update_guard_aimed_at"`
 	Retained         int            `json:"retained_rounds"`
 	RetentionChanged []string       `json:"retention_changed"`
 }
@@ -248,7 +249,7 @@ type stats struct {
 func newStats() *stats {
 	return &stats{GroupSizes: map[string]int{}, Wire: map[string]int{}, Effects: map[string]int{}, Endings: map[string]int{},
 		SigShapes: map[string]int{}, RandShapes: map[string]int{}, Filed: map[string]int{}, DataHash: map[string]int{},
-		IdEnc: map[string]int{}, ScriptLen: map[string]int{}, WireStream: map[string]int{}}
+		IdEnc: map[string]int{}, ScriptLen: map[string]int{}, WireStream: map[string]int{}, Branches: map[string]int{}}
 }
 
 func shapeClass(s string) string {
